@@ -61,4 +61,27 @@ theorem htlc_code_sound (env : Env) (extU : String → HTLCWitness → HTLCWitne
   rw [h] at e
   exact verifyHTLC_sound env mp _ e.symm
 
+/-- IFF for HTLC locks, when a signature verifies under at most one listed key. -/
+theorem htlc_code_iff (env : Env) (extU : String → HTLCWitness → HTLCWitness) (sh : String → List UInt8)
+    (extP : String → Signature × Option String) (extV : Signature → List UInt8 → PublicKey → Bool)
+    (shaB : List UInt8 → List UInt8) (hexE : List UInt8 → String)
+    (enc : String → Sig) (henc : Function.Injective enc) (proof : Gen.Code.Proof) (secret : WellKnownSecret)
+    (mp : Spend.Proof) (k : Kind)
+    (hsig : mp.witness.signatures = (extU proof.Witness default).Signatures.map enc)
+    (hpre : mp.witness.preimage = (extU proof.Witness default).Preimage)
+    (hsha : ∀ b, hexE (shaB b) = env.sha256hex b)
+    (hv : ∀ s key, env.valid (enc s) key mp.msg = ((extP s).2.isNone && extV (extP s).1 (sh proof.Secret) key))
+    (hu : UniqueSigner env.valid mp.msg (condOf env secret.Data.Tags).pubkeys) :
+    nut14_VerifyHTLCProof extU extPI (extPK env) env.now sh extP extV extHexD shaB hexE proof secret = none ↔
+      spendableHTLC env { kind := k, data := secret.Data.Data, tags := secret.Data.Tags } mp.msg mp.witness := by
+  have e := VerifyHTLCProof_eq env extU sh extP extV shaB hexE enc henc proof secret mp k hsig hpre hsha hv
+  constructor
+  · intro h; rw [h] at e; exact verifyHTLC_sound env mp _ e.symm
+  · intro hs
+    have hc := verifyHTLC_complete env mp { kind := k, data := secret.Data.Data, tags := secret.Data.Tags } hu hs
+    rw [hc] at e
+    cases hr : nut14_VerifyHTLCProof extU extPI (extPK env) env.now sh extP extV extHexD shaB hexE proof secret with
+    | none => rfl
+    | some x => rw [hr] at e; cases e
+
 end Gonuts.Props.C12Code
